@@ -305,6 +305,78 @@ def samplerRunSeqs (G : Gens) (seed : Nat) (degSeq : List Nat) (dimSeq : List (N
 def samplerRunHyg (G : Gens) (seed : Nat) (labels : List Nat) (edges : Config) :=
   sampleFromHyg labels edges (G.ownOf seed)
 
+/-! ## one sampler object, several `sample(...)` calls
+
+What outlives a `sample(...)` call on the sampler object and is read or written by a later call: the two
+generators (represented, as everywhere in this model, by what they deliver: each call carries the draws it
+receives - which draws these are is numpy's business and depends on how much was consumed before) and the report
+`matching_sequences` (`None` at construction; `_match_sequences` sets it to `None` at its start since the repair of
+D48, an extraction that runs out of positive-degree nodes sets it to `False`, `_match_sequences` sets it to `True`
+at its end when it is still `None`).  The parameters `u, w` only enter the oracles (accept bits, quantiles, the
+inner model's draws).  Nothing else is kept: in particular the label encoder of an initial hypergraph is a local
+variable of the call. -/
+
+/-- the arguments of one `sample(...)` call: `sample(initial_hyg=h)` (`labels` = sorted nodes of `h`),
+`sample(deg_seq, dim_seq)`, `sample()` -/
+inductive CallArgs where
+  | hyg (labels : List Nat) (edges : Config)
+  | seqs (degSeq : List Nat) (dimSeq : List (Nat × Nat))
+  | model
+deriving Repr
+
+/-- one call with everything the two generators deliver to the generator object it returns -/
+structure Call where
+  args : CallArgs
+  own : OwnTape
+  inner : InnerTape
+
+/-- the mutable attribute of the sampler object that `sample` reads / writes: `matching_sequences` -/
+structure Sampler where
+  flag : Option Bool
+deriving Repr, DecidableEq
+
+/-- what the caller sees of one call: the report `matching_sequences` the call made (`none`: the call made no
+report - `sample(initial_hyg=...)` does not touch the attribute) and the yielded hypergraphs -/
+structure CallOut where
+  report : Option Bool
+  outs : List (List (Hye × Nat))
+deriving Repr, DecidableEq
+
+/-- `matching_sequences` at the end of `_match_sequences`; `ok` = no extraction executed
+`self.matching_sequences = False`.  `reset = true` is the code after the repair of D48 (the attribute is set to
+`None` at the start of `_match_sequences`), `reset = false` the unrepaired code (the old value stays). -/
+def flagAfter (reset : Bool) (old : Option Bool) (ok : Bool) : Option Bool :=
+  if ok then
+    match (if reset then none else old) with
+    | none => some true
+    | some b => some b
+  else some false
+
+/-- a call that goes through `_sampling_from_sequences` -/
+def seqCall (reset : Bool) (s : Sampler) (degSeq : List Nat) (dimSeq : List (Nat × Nat)) (fd fm : Bool)
+    (fixed : Config) (t : OwnTape) : Sampler × Option CallOut :=
+  match matchSequences degSeq dimSeq fd fm t.picks with
+  | none => (⟨if reset then none else s.flag⟩, none)
+  | some st =>
+    (⟨flagAfter reset s.flag st.flag⟩,
+      (sampleFromConfig st.cfg fixed none t).map (fun o => ⟨flagAfter reset s.flag st.flag, o⟩))
+
+/-- one `sample(...)` call on a sampler in state `s` (the generator it returns, consumed as far as the draws
+reach): the new state and what the caller sees (`none` = the call raised) -/
+def callStep (reset : Bool) (s : Sampler) (c : Call) : Sampler × Option CallOut :=
+  match c.args with
+  | .hyg labels edges => (s, (sampleFromHyg labels edges c.own).map (fun o => ⟨none, o⟩))
+  | .seqs degSeq dimSeq => seqCall reset s degSeq dimSeq true true [] c.own
+  | .model => seqCall reset s c.inner.degSeq c.inner.dimSeq false false c.inner.dyads c.own
+
+/-- several calls on ONE sampler object, in the order in which their generators are started -/
+def runSession (reset : Bool) : Sampler → List Call → List (Option CallOut)
+  | _, [] => []
+  | s, c :: cs => (callStep reset s c).2 :: runSession reset (callStep reset s c).1 cs
+
+/-- the same call on a sampler that has just been built -/
+def freshCall (c : Call) : Option CallOut := (callStep true ⟨none⟩ c).2
+
 /-! ## observables used by the theorems -/
 
 /-- every hyperedge of the configuration is a set (duplicate-free list) -/
